@@ -40,10 +40,28 @@ VARIABLES base,  \* the root below which programs are installed in this executio
           last   \* ghost: [op, k, a, res] of the call just performed
 vars == <<base, last>>
 
-Classes == {"ascii", "space", "utf8", "dot", "punct"}   \* punct: a byte that is special elsewhere (backslash, quotes, colon, ...) but ordinary in a POSIX name
+(* Character classes of a component.  They only steer the runner's choice of names (the name's hash is what TLC   *)
+(* compares); every class is a shape the property's "any absolute path the platform allows" includes:               *)
+(*   punct   a byte that is special elsewhere (backslash, quotes, colon, glob characters, tab) but ordinary in a     *)
+(*           POSIX name                                                                                              *)
+(*   ctrl    control characters: newline, carriage return, 0x01, 0x1b, 0x7f                                          *)
+(*   lead    begins with '-' or with a single '.' (option-like and hidden names)                                     *)
+(*   dots    looks like the special entries: "...", "..x", or ends in '.'                                            *)
+(*   mb      multi-byte characters only (with NameMax: a component of exactly NAME_MAX bytes of them)                *)
+(*   delsfx  ends in " (deleted)" - what the kernel appends to /proc/self/exe of an unlinked image, here part of a   *)
+(*           real name                                                                                               *)
+(*   edge    begins or ends with a blank                                                                             *)
+Classes == {"ascii", "space", "utf8", "dot", "punct", "ctrl", "lead", "dots", "mb", "delsfx", "edge"}
 (* a one-byte name cannot contain a multi-byte character, and "." is not a name *)
-MinLen(cls) == IF cls \in {"utf8", "dot"} THEN 2 ELSE 1
+MinLen(cls) == CASE cls \in {"utf8", "lead", "mb", "edge"} -> 2
+                 [] cls \in {"dots", "dot", "space"} -> 3          \* dot / space: the character strictly inside ("a.b", "a b")
+                 [] cls = "delsfx" -> 11
+                 [] OTHER          -> 1
 ClassSeq == <<"ascii", "space", "utf8", "dot", "punct">>
+OddSeq   == <<"ctrl", "lead", "dots", "mb", "delsfx", "edge">>
+(* patterns that make sense for the short configurations only: "same" = every component (directories and the file)  *)
+(* carries the SAME name, "one" = every component is a single character                                              *)
+ShortOnly == {"same", "one"}
 
 RECURSIVE SumLen(_)
 SumLen(p) == IF p = <<>> THEN 0 ELSE p[1].len + SumLen(Tail(p))
@@ -51,10 +69,17 @@ PathLen(p) == SumLen(p) + Len(p)                    \* every component is preced
 
 ----------------------------------------------------------------------------
 (* Configurations: the components below the root                            *)
-ClsAt(pat, i) == IF pat = "mixed" THEN ClassSeq[((i - 1) % 5) + 1] ELSE pat
+ClsAt(pat, i) == CASE pat = "mixed" -> ClassSeq[((i - 1) % 5) + 1]
+                   [] pat = "odd"   -> OddSeq[((i - 1) % 6) + 1]
+                   [] pat = "same"  -> "ascii"
+                   [] pat = "one"   -> IF i % 2 = 1 THEN "ascii" ELSE "punct"
+                   [] OTHER         -> pat
 
 (* short paths: small, varying lengths *)
-ShortComps(d, pat) == [i \in 1..d |-> [len |-> MinLen(ClsAt(pat, i)) + ((i * 3) % 7), cls |-> ClsAt(pat, i)]]
+ShortComps(d, pat) == [i \in 1..d |-> [len |-> CASE pat = "one"  -> 1
+                                               [] pat = "same" -> 5
+                                               [] OTHER        -> MinLen(ClsAt(pat, i)) + ((i * 3) % 7),
+                                       cls |-> ClsAt(pat, i)]]
 
 (* a path of exactly total bytes: need bytes of names spread evenly over d components *)
 Need(total, b, d)     == total - PathLen(b) - d
@@ -71,8 +96,9 @@ Comps(cfg, b) == IF cfg.total = 0 THEN ShortComps(cfg.depth, cfg.pat)
 Configs(b) ==
     {[total |-> 0, depth |-> d, pat |-> pat, via |-> via] : d \in Depths, pat \in Patterns, via \in Vias}
     \cup {c \in {[total |-> t, depth |-> MinDepth(t, b) + x, pat |-> pat, via |-> via] :
-                    t \in Totals, x \in Extras, pat \in Patterns, via \in Vias} :
-             Feasible(c.total, b, c.depth)}
+                    t \in Totals, x \in Extras, pat \in Patterns \ ShortOnly, via \in Vias} :
+             /\ Feasible(c.total, b, c.depth)
+             /\ c.via = "fakeargv0" => c.depth = MinDepth(c.total, b)}      \* (argv[0] is independent of the depth: one depth is enough)
 
 (* where the file really is *)
 RealPath(cfg, b) == b \o Comps(cfg, b)
@@ -91,7 +117,7 @@ Links(cfg, b) ==
 Invoked(cfg, b) ==
     CASE cfg.via = "filelink" -> b \o <<LinkName>>
       [] cfg.via = "dirlink"  -> b \o <<LinkName, RealPath(cfg, b)[Len(RealPath(cfg, b))]>>
-      [] OTHER                -> RealPath(cfg, b)        \* "direct" and "relative" name the same file
+      [] OTHER                -> RealPath(cfg, b)        \* "direct", "relative" and "fakeargv0" (argv[0] is an unrelated word) name the same file
 (* POSIX path resolution: the longest-prefix symbolic link is replaced by its target *)
 RECURSIVE Resolve(_, _, _)
 Resolve(p, links, fuel) ==
@@ -114,10 +140,14 @@ PrefixPath(p)     == [abs |-> TRUE, trail |-> TRUE, dbl |-> 0, comps |-> SubSeq(
 (* a program installed directly in the root directory has no grandparent: nothing is promised about prefix_path() *)
 Unspecified == [any |-> TRUE]
 (* does the observed result obs conform to the result res the spec computed? *)
-Conforms(res, obs) == /\ {"exe", "prefix", "bytes"} \subseteq DOMAIN obs        \* a crashed call has no such observation
+(* obs.again: both functions called a second time after the process changed its working directory - the answers  *)
+(* are about where the program is installed, they do not depend on the calls made before or on the directory      *)
+Conforms(res, obs) == /\ {"exe", "prefix", "bytes", "again"} \subseteq DOMAIN obs        \* a crashed call has no such observation
                       /\ obs.exe = res.exe
                       /\ obs.bytes = res.bytes
                       /\ res.prefix = Unspecified \/ obs.prefix = res.prefix
+                      /\ obs.again.exe = res.exe
+                      /\ res.prefix = Unspecified \/ obs.again.prefix = res.prefix
 
 WithHash(p, h) == [i \in DOMAIN p |-> [len |-> p[i].len, cls |-> p[i].cls, h |-> h[i]]]
 
@@ -149,6 +179,11 @@ Run(cfg, h) ==
              prefix |-> IF HasGrandparent(real) THEN PrefixPath(WithHash(real, h)) ELSE Unspecified,
              bytes  |-> PathLen(real)])
 
+(* the same program where the platform gives no answer (no /proc in the root directory): the statement promises    *)
+(* nothing about the strings; the calls must still return (no crash, no hang, nothing outside the buffer)          *)
+Blind(cfg) == /\ base' = base
+              /\ Call("Blind", [cfg |-> cfg], [returned |-> TRUE])
+
 Endian(mem) == /\ base' = base
                /\ Call("Endian", [mem |-> mem], [val |-> Endianness(mem)])
 
@@ -160,19 +195,20 @@ ZeroHash(cfg, b) == [i \in 1..Len(RealPath(cfg, b)) |-> 0]
 Next == /\ last.op = "Init"
         /\ \/ \E cfg \in Configs(base) : Run(cfg, ZeroHash(cfg, base))
            \/ \E mem \in ByteOrders : Endian(mem)
+           \/ base = <<>> /\ \E cfg \in Configs(base) : cfg.via = "direct" /\ cfg.total = 0 /\ Blind(cfg)    \* only in a private root directory
 
 Spec == Init /\ [][Next]_vars
 
 (* S->C: every configuration with its expected component lists is written out *)
-Emit == PrintT("@E@" \o ToJson([op |-> last'.op, cfg |-> IF last'.op = "Run" THEN last'.a.cfg ELSE [z |-> 0],
-                                comps |-> IF last'.op = "Run" THEN Comps(last'.a.cfg, base) ELSE <<>>,
+Emit == PrintT("@E@" \o ToJson([op |-> last'.op, cfg |-> IF last'.op \in {"Run", "Blind"} THEN last'.a.cfg ELSE [z |-> 0],
+                                comps |-> IF last'.op \in {"Run", "Blind"} THEN Comps(last'.a.cfg, base) ELSE <<>>,
                                 invoked |-> IF last'.op = "Run" THEN Invoked(last'.a.cfg, base) ELSE <<>>,
                                 links |-> IF last'.op = "Run" THEN Links(last'.a.cfg, base) ELSE {},
                                 a |-> last'.a, res |-> last'.res]))
 
 ----------------------------------------------------------------------------
 (* Theorems of the specification itself (guard the oracle)                  *)
-TypeOK == last.op \in {"Init", "Reset", "Run", "Endian"}
+TypeOK == last.op \in {"Init", "Reset", "Run", "Endian", "Blind"}
 
 ConfigLaws(b) ==
     \A cfg \in Configs(b) :
